@@ -11,12 +11,15 @@ import sys
 sys.path.insert(0, os.path.join(ROOT, "tools"))
 sys.path.insert(0, os.path.join(ROOT, "tools", "checks"))
 
+# checks validated by the integrator (unchanged tree passes with several seeds, breaking changes detected)
+READY = ["C16", "C17"]
+
 # every tools/checks/cXX.py that defines MANIFEST = dict(text=, note=, technique=, design=[, category=]) is a claimed check
 CLAIMED = {}
 for _f in sorted(os.listdir(os.path.join(ROOT, "tools", "checks"))):
     if _f.startswith("c") and _f.endswith(".py"):
         _m = importlib.import_module(_f[:-3])
-        if hasattr(_m, "MANIFEST"):
+        if hasattr(_m, "MANIFEST") and _f[:-3].upper() in READY:
             CLAIMED[_f[:-3].upper()] = _m.MANIFEST
 
 PENDING = {
@@ -66,7 +69,8 @@ def main():
     print("MANIFEST.json: %d checks, %d not claimed" % (len(checks), len(na)))
 
 
-HOOK_COMMITS = []
+HOOK_COMMITS = ["33b7190 verif: add the NANO_VERIF hook header (no-op unless the guard is defined)",
+                "d179c32 verif: thread-pool event and schedule points (guarded by NANO_VERIF, add-only)"]
 
 if __name__ == "__main__":
     main()
